@@ -56,6 +56,7 @@ def op_strategies(typed=False, explicit_ids=True, fresh=False, valid_before_only
         "add_node": (st.tuples(st.just("add_node"), PREF, st.sampled_from([0, 0, 1]), REF, tri, B, st.one_of(st.none(), KINDS)).map(list) if typed
                      else st.tuples(st.just("add_node"), PREF, st.sampled_from([0, 0, 1]), REF, tri, B).map(list)),
         "copy_to": st.tuples(st.just("copy_to"), REF, PREF, st.sampled_from([True, True, False]), B, st.booleans()).map(list),
+        "add_node_ids": st.tuples(st.just("add_node_ids"), PREF, REF, st.sampled_from(["data_id", "node_id"]), st.booleans()).map(list),
         "add_tree": st.tuples(st.just("add_tree"), PREF, B, tri).map(list),
         # the shortcut methods with a whole tree as child
         "shortcut_tree": st.tuples(st.just("shortcut_tree"), st.sampled_from(["append_child", "prepend_child", "prepend_sibling", "append_sibling"]), REF, tri).map(list),
@@ -96,7 +97,7 @@ def _fix_meta(t):
 
 
 ALL_KINDS = ["add", "append_child", "prepend_child", "prepend_sibling", "append_sibling", "add_node", "copy_to",
-             "add_tree", "shortcut_tree", "add_own_tree", "own_copy_to", "move", "remove", "remove_children", "clear", "del", "sort", "set_data", "rename", "meta", "filter"]
+             "add_tree", "add_node_ids", "shortcut_tree", "add_own_tree", "own_copy_to", "move", "remove", "remove_children", "clear", "del", "sort", "set_data", "rename", "meta", "filter"]
 
 PROFILES = {
     "all": ALL_KINDS,
